@@ -71,6 +71,13 @@ let derive (fs : string list) : string =
     let prior = L.nth fs 2 in
     let tbl = parse_table (L.nth fs 3) in
     let un = parse_keys (L.nth fs 4) in
+    (* every text an external deserialiser will be asked about must be in the case's table *)
+    let incomplete = L.exists (fun f -> match f.f_de with
+        | DExt i -> (match Lossy.l_get src f.f_key with
+            | Some s -> not (L.exists (fun ((j, x), _) -> j = i && x = s) tbl)
+            | None -> false)
+        | _ -> false) fields in
+    if incomplete then "EXT-TABLE-INCOMPLETE" else
     let from_l = x_from_lossy tbl fields src in
     let from_ll = if st.s_from then dres_s (fun _ -> "OK") (x_from_ll tbl sk rk fields (ll_of_list src)) else "-" in
     let head = Printf.sprintf "from=%s|fromll=%s" (dres_s (fun _ -> "OK") from_l) from_ll in
